@@ -22,7 +22,8 @@ CONSTANTS MaxStmts,   \* statements per skeleton
           MaxD,       \* nesting depth
           MaxLen,     \* statements per block
           LoopElse,   \* BOOLEAN
-          Funcs       \* BOOLEAN: nested def + call productions
+          Funcs,      \* BOOLEAN: nested def + call productions
+          Allowed     \* the productions of this family (a subset of Productions): focused enumerations go deeper
 VARIABLES toks, stmts
 vars == <<toks, stmts>>
 Hole(d, lp, fin, rem, fn) == [t |-> "?", d |-> d, lp |-> lp, fin |-> fin, rem |-> rem, fn |-> fn]
@@ -34,29 +35,32 @@ Repl(i, s) == SubSeq(toks, 1, i-1) \o s \o SubSeq(toks, i+1, Len(toks))
 \* after a statement the block either ends or continues with another hole
 Cont(h) == IF h.rem > 1 THEN {<<>>, <<Hole(h.d, h.lp, h.fin, h.rem - 1, h.fn)>>} ELSE {<<>>}
 Sub(h, lp, fin) == Hole(h.d + 1, lp, fin, MaxLen, h.fn)
+Productions == {"s", "if", "ifelse", "while", "for", "with", "tryf", "trye", "tryef", "whileelse", "forelse", "def",
+                "break", "continue", "return", "raise"}
+Named(name, seq) == IF name \in Allowed THEN {seq} ELSE {}
 Compound(h) ==
   IF h.d >= MaxD THEN {} ELSE
-  { <<Tk("if"), Sub(h, h.lp, h.fin), Tk("end")>>,
-    <<Tk("if"), Sub(h, h.lp, h.fin), Tk("else"), Sub(h, h.lp, h.fin), Tk("end")>>,
-    <<Tk("while"), Sub(h, TRUE, h.fin), Tk("end")>>,
-    <<Tk("for"), Sub(h, TRUE, h.fin), Tk("end")>>,
-    <<Tk("with"), Sub(h, h.lp, h.fin), Tk("end")>>,
-    <<Tk("try"), Sub(h, h.lp, h.fin), Tk("finally"), Sub(h, FALSE, TRUE), Tk("end")>>,
-    <<Tk("try"), Sub(h, h.lp, h.fin), Tk("except"), Sub(h, h.lp, h.fin), Tk("end")>>,
-    <<Tk("try"), Sub(h, h.lp, h.fin), Tk("except"), Sub(h, h.lp, h.fin), Tk("finally"), Sub(h, FALSE, TRUE), Tk("end")>> }
+  Named("if", <<Tk("if"), Sub(h, h.lp, h.fin), Tk("end")>>)
+  \cup Named("ifelse", <<Tk("if"), Sub(h, h.lp, h.fin), Tk("else"), Sub(h, h.lp, h.fin), Tk("end")>>)
+  \cup Named("while", <<Tk("while"), Sub(h, TRUE, h.fin), Tk("end")>>)
+  \cup Named("for", <<Tk("for"), Sub(h, TRUE, h.fin), Tk("end")>>)
+  \cup Named("with", <<Tk("with"), Sub(h, h.lp, h.fin), Tk("end")>>)
+  \cup Named("tryf", <<Tk("try"), Sub(h, h.lp, h.fin), Tk("finally"), Sub(h, FALSE, TRUE), Tk("end")>>)
+  \cup Named("trye", <<Tk("try"), Sub(h, h.lp, h.fin), Tk("except"), Sub(h, h.lp, h.fin), Tk("end")>>)
+  \cup Named("tryef", <<Tk("try"), Sub(h, h.lp, h.fin), Tk("except"), Sub(h, h.lp, h.fin), Tk("finally"), Sub(h, FALSE, TRUE), Tk("end")>>)
   \cup (IF LoopElse THEN
-  { <<Tk("while"), Sub(h, TRUE, h.fin), Tk("else"), Sub(h, h.lp, h.fin), Tk("end")>>,
-    <<Tk("for"), Sub(h, TRUE, h.fin), Tk("else"), Sub(h, h.lp, h.fin), Tk("end")>> } ELSE {})
+        Named("whileelse", <<Tk("while"), Sub(h, TRUE, h.fin), Tk("else"), Sub(h, h.lp, h.fin), Tk("end")>>)
+        \cup Named("forelse", <<Tk("for"), Sub(h, TRUE, h.fin), Tk("else"), Sub(h, h.lp, h.fin), Tk("end")>>) ELSE {})
   \cup (IF Funcs /\ ~h.fn /\ h.d <= 1 THEN
-  { <<Tk("def"), [Hole(h.d + 1, FALSE, FALSE, MaxLen, TRUE) EXCEPT !.fn = TRUE], Tk("end"), Tk(IF h.fin THEN "callnr" ELSE "call")>> } ELSE {})
+        Named("def", <<Tk("def"), Hole(h.d + 1, FALSE, FALSE, MaxLen, TRUE), Tk("end"), Tk(IF h.fin THEN "callnr" ELSE "call")>>) ELSE {})
 \* lp is reset on entering a finally block, so inside one it means "a loop that lies inside this finally block":
 \* break/continue then stay inside the finally block (legal, in the class); return/raise would leave it.
-Jumps(h) == (IF h.lp THEN {<<Tk("break")>>, <<Tk("continue")>>} ELSE {})
-            \cup (IF ~h.fin THEN {<<Tk("return")>>, <<Tk("raise")>>} ELSE {})
+Jumps(h) == (IF h.lp THEN Named("break", <<Tk("break")>>) \cup Named("continue", <<Tk("continue")>>) ELSE {})
+            \cup (IF ~h.fin THEN Named("return", <<Tk("return")>>) \cup Named("raise", <<Tk("raise")>>) ELSE {})
 Next ==
   /\ Holes # {} /\ stmts < MaxStmts
   /\ LET i == First  h == toks[i] IN
-     \/ \E c \in Cont(h) : toks' = Repl(i, <<Tk("s")>> \o c)
+     \/ "s" \in Allowed /\ \E c \in Cont(h) : toks' = Repl(i, <<Tk("s")>> \o c)
      \/ \E p \in Compound(h), c \in Cont(h) : toks' = Repl(i, p \o c)
      \/ \E j \in Jumps(h) : toks' = Repl(i, j)
   /\ stmts' = stmts + 1
